@@ -15,7 +15,7 @@ TECHNIQUE = ('class-graph / table extraction (operator -> node class -> overflow
              'generator methods (bit protocol, fold scope as a small abstract interpretation of ConsolidateOverflowCheck, partial '
              'evaluation of overflow_check_binop over the complete finite domain op x const_rhs), Tempita read sets vs context keys, '
              'helper-name agreement with #if coverage, clang as parser for the Binop dispatch and as constant evaluator for the '
-             'MIN / -1 guard (compile-fail witness)')
+             'MIN / -1 guard (compile-fail witness); visitor-dispatch resolution + summary substitution of delegating handlers for the fold barrier')
 DECIDES = ('(OPS) each of + - * << is built by a NumBinopNode subclass whose overflow_op_names contains it and whose effective '
            'analyse_c_operation reads directives["overflowcheck"]; each of + - * << / // and unary - has code that raises OverflowError reachable '
            'from its generate_evaluation_code; (ENABLE) where overflow_check is switched on the node becomes a temp, gets its helper name from '
@@ -30,7 +30,10 @@ DECIDES = ('(OPS) each of + - * << is built by a NumBinopNode subclass whose ove
            '(NAME) for every op in overflow_op_names x const_rhs x type path the name returned by overflow_check_binop, and every __Pyx_ helper the '
            'loaded Binop template calls, is defined under every #if variant by a section loaded on that path; helpers take (a, b, int *overflow); '
            '(DISPATCH) each sizeof(T)==sizeof(X) arm of the Binop template calls the helper of X, unsigned arms unsigned helpers; '
-           '(W1) the constant part of the MIN / -1 guard holds for every signed result type (int, long, long long) on the analysis target.')
+           '(W1) the constant part of the MIN / -1 guard holds for every signed result type (int, long, long long) on the analysis target; '
+           '(BARRIER) the ConsolidateOverflowCheck handler that the visitor dispatch selects for every node class built for a trapping C operator (/ // %: DivNode, ModNode and subclasses) '
+           'visits the operands only with self.overflow_bit_node cleared on EVERY path, delegations self.visit_X(node) / super().visit_X(node) resolved recursively (rules/sC04.py): '
+           'no node flag (zerodivision_check, cdivision) may re-open the fold, because the C division itself traps on a divisor that wrapped to 0.')
 NOT_DECIDED = ('arithmetic correctness of the C helpers (bounds, widening); that ConsolidateOverflowCheck *restores* the saved bit node after a '
                'non-arithmetic node (dropping the restore only loses folding, the property still holds, so it is deliberately not demanded: '
                'DESIGN clause V3 is implemented as "cleared", not "restored"); generic G2 for the bit temp is replaced by the path-sensitive BIT rule; '
@@ -1294,8 +1297,9 @@ def _dscope(ctx):
 
 
 def run(ctx):
+    from ..rules import sC04
     return [rule_ops(ctx), rule_fold(ctx), rule_pure(ctx), rule_enable(ctx), rule_bit(ctx), rule_p1(ctx), rule_name(ctx),
-            rule_dispatch(ctx), rule_w1(ctx), rule_i5(ctx), _dscope(ctx)]
+            rule_dispatch(ctx), rule_w1(ctx), rule_i5(ctx), _dscope(ctx), sC04.rule_barrier(ctx, _fold_analyse)]
 
 
 MUTATIONS = [
@@ -1329,7 +1333,14 @@ MUTATIONS = [
     ('Cython/Utility/Overflow.c', 'LeftShift: third parameter `long *overflow`', 'C04-NAME'),
     ('Cython/Utility/Overflow.c', 'Binop: the sizeof(long) arm calls __Pyx_{{BINOP}}_int_checking_overflow', 'C04-DISPATCH'),
     ('Cython/Compiler/ExprNodes.py', 'generate_div_warning_code: guard `sizeof(%s) == sizeof(int)`', 'C04-W1 (long, long long reported, int goes silent)'),
+    ('Cython/Compiler/Optimize.py', 'seed C04b: visit_DivNode is a barrier only `if node.zerodivision_check`, else delegates to visit_NumBinopNode', 'C04-BARRIER'),
+    ('Cython/Compiler/Optimize.py', 'visit_DivNode deleted / misnamed visit_DivisionNode (dispatch falls back to visit_NumBinopNode)', 'C04-BARRIER (+ C04-PURE)'),
+    ('Cython/Compiler/Optimize.py', 'visit_DivNode: `if node.cdivision: return self.visit_NumBinopNode(node)` before the barrier', 'C04-BARRIER'),
+    ('Cython/Compiler/Optimize.py', 'new visit_ModNode delegating to visit_NumBinopNode', 'C04-BARRIER (ModNode only)'),
+    ('Cython/Compiler/Optimize.py', 'visit_DivNode: `return super().visit_Node(node)` (the base class handler does not clear the bit node)', 'C04-BARRIER'),
     # behaviour-preserving edits, all silent (no finding added or removed)
+    ('Cython/Compiler/Optimize.py', 'visit_DivNode inlines save / clear / visitchildren / restore; visit_DivNode folds only `if node.type.is_float` (result through a local); '
+                                    'visit_DivNode -> visit_fold_barrier -> visit_Node chain; visit_Node saves and clears unconditionally', 'silent'),
     ('Cython/Compiler/Optimize.py', 'visit_Node: rename local `saved` -> `keep`', 'silent'),
     ('Cython/Compiler/ExprNodes.py', 'overflow_op_names: reorder the "+" and "-" rows', 'silent'),
     ('Cython/Compiler/Optimize.py', 'visit_NumBinopNode rewritten with `if self.overflow_bit_node is None: ... else: ...` instead of the flag local', 'silent'),
